@@ -6,6 +6,7 @@ import CosetProofs.HeaderLoop
 import CosetProofs.Props.C03
 import CosetProofs.Props.C04
 import CosetProofs.Props.C05
+import CosetProofs.Cbor.Encodings
 namespace Coset.Props.C02
 open Coset Coset.Cbor Coset.Spec
 
@@ -167,6 +168,18 @@ theorem view_encoding_independent (fuel d : Nat) (d1 d2 : Bytes) (v : Value) (p1
       rw [hf1] at hf2; simp at hf2; subst hf2
       exact ⟨rfl, rfl, rfl⟩
 
+/-- "whatever its encoding": for any two well-formed encodings `d1`, `d2` of the same header content (non-minimal integer widths,
+    indefinite lengths, any chunking — `CosetSpec.Encodings`), the two protected headers have the same parsed view and each keeps
+    exactly its own bytes. -/
+theorem view_any_encoding (v : Value) (d1 d2 : Bytes) (h1 : Spec.Encodes v d1) (h2 : Spec.Encodes v d2)
+    (hd : Cbor.depthOf v ≤ Cbor.recursionLimit) (p1 p2 : ProtectedHeader)
+    (e1 : phFromBstr (.bytes d1) = .ok p1) (e2 : phFromBstr (.bytes d2) = .ok p2) :
+    p1.header = p2.header ∧ p1.originalData = some d1 ∧ p2.originalData = some d2 := by
+  have n1 : d1 ≠ [] := by obtain ⟨e, _, _, rfl⟩ := h1; exact Cbor.bytes_ne_nil e
+  have n2 : d2 ≠ [] := by obtain ⟨e, _, _, rfl⟩ := h2; exact Cbor.bytes_ne_nil e
+  exact view_encoding_independent (3 * maxNest + 2) maxNest d1 d2 v p1 p2 n1 n2 (readToValue_of_encodes v d1 h1 hd)
+    (readToValue_of_encodes v d2 h2 hd) e1 e2
+
 /-- zero-length string and wrapped empty map both give the default header (and keep their own bytes). -/
 example : (phFromBstr (.bytes [])).isOk = true ∧ (phFromBstr (.bytes [0xa0])).isOk = true := by decide +kernel
 
@@ -184,5 +197,6 @@ example : (fromSlice CoseSign1.fromValue [0x84, 0x46, 0xa2, 0x04, 0x41, 0x01, 0x
 #print axioms structures_use_stored
 #print axioms signer_slot_uses_stored
 #print axioms view_encoding_independent
+#print axioms view_any_encoding
 
 end Coset.Props.C02
